@@ -143,6 +143,9 @@ type replayRec struct {
 	Iters   int      `json:"iters,omitempty"`
 	Report  string   `json:"report,omitempty"`
 	Dump    string   `json:"dump,omitempty"`
+	Pkg     bool     `json:"pkg_level_api,omitempty"`
+	Logger  bool     `json:"debug_logger,omitempty"`
+	HoldMs  int      `json:"hold_ms,omitempty"`
 }
 
 type scen struct {
@@ -151,7 +154,7 @@ type scen struct {
 	idx     int
 	rng     *rand.Rand
 	qrng    *rand.Rand // separate stream for the read-only API bursts
-	d       *daemon.OrderedDaemon
+	d       daemon.Daemon
 	ws      []*wk
 	byName  map[string]*wk
 	trace   []string
@@ -170,6 +173,10 @@ type scen struct {
 	opened  []string
 	flags   map[string]bool
 	mode    string // replay mode of the family that runs on this scen ("" = det)
+	// configuration space: package-level default daemon instead of an instance, debug logger installed,
+	// long hold of the gates in milliseconds (lifecycle.go "patience")
+	pkgLevel, withLogger bool
+	holdMs               int
 }
 
 // orderBase: ordinary small orders (ties, negatives, gaps; 0 is also what the
@@ -258,7 +265,7 @@ func (s *scen) violation(fp, what string) {
 	if mode == "" {
 		mode = "det"
 	}
-	s.c.Violation(fp, what, replayRec{Mode: mode, CfgSeed: s.seed, Index: s.idx, Trace: append([]string(nil), s.trace...)})
+	s.c.Violation(fp, what, replayRec{Pkg: s.pkgLevel, Logger: s.withLogger, HoldMs: s.holdMs, Mode: mode, CfgSeed: s.seed, Index: s.idx, Trace: append([]string(nil), s.trace...)})
 }
 
 func (s *scen) actor(name string) *gdump.Actor {
@@ -314,7 +321,7 @@ func (s *scen) shutdownView(gs []gdump.G) shutView {
 		}
 		if busyCaller[g.ID] {
 			seenCaller++
-			if !g.Has(exportedShutdownFrame) {
+			if !inShutdownCall(g) {
 				v.blind = fmt.Sprintf("busy shutdown caller (goroutine %d) shows no exported Shutdown/ShutdownAndWait frame", g.ID)
 			}
 			v.inside = append(v.inside, g)
@@ -324,7 +331,7 @@ func (s *scen) shutdownView(gs []gdump.G) shutView {
 			continue // other harness actors (registrar, runner, gated call), workers inside their handler
 		}
 		// spawned by the daemon's Shutdown (exported name in a frame or in the "created by" line)
-		if strings.Contains(g.Raw, "hive.go/app/daemon.(*OrderedDaemon).Shutdown") {
+		if strings.Contains(g.Raw, "hive.go/app/daemon.(*OrderedDaemon).Shutdown") || strings.Contains(g.Raw, "hive.go/app/daemon.Shutdown") {
 			v.inside = append(v.inside, g)
 		}
 	}
@@ -576,7 +583,7 @@ func (s *scen) releaseLate(shutdownComplete bool) {
 // reused for another scenario (goroutines left behind).
 func (s *scen) run() bool {
 	rng := s.rng
-	s.d = daemon.New()
+	s.d = s.newDaemon()
 	s.reg = s.actor("registrar")
 	// order pool: ties, negatives, gaps
 	s.pool = genPool(rng, 1+rng.Intn(5))
@@ -988,6 +995,7 @@ func (s *scen) run() bool {
 		s.c.Distinct("nontrivial", strings.Join(ms, ",")+"|"+strings.Join(s.opened, ",")+"|"+strings.Join(fl, "+"))
 	}
 	s.c.Count("configurations", 1)
+	s.countAPI("det")
 	var liveOrders []int
 	for _, w := range atShutdown {
 		liveOrders = append(liveOrders, w.order)
@@ -1041,6 +1049,10 @@ func (s *scen) cleanup() bool {
 }
 
 func runScenario(c *vf.Ctx, seed int64, idx int) bool {
-	s := &scen{c: c, seed: seed, idx: idx, rng: rand.New(rand.NewSource(seed)), qrng: rand.New(rand.NewSource(seed ^ 0x5eed0c20)), byName: map[string]*wk{}, viols: map[string]bool{}, flags: map[string]bool{}}
+	return runScenarioOn(c, seed, idx, false, false)
+}
+
+func runScenarioOn(c *vf.Ctx, seed int64, idx int, pkg, logger bool) bool {
+	s := &scen{pkgLevel: pkg, withLogger: logger, c: c, seed: seed, idx: idx, rng: rand.New(rand.NewSource(seed)), qrng: rand.New(rand.NewSource(seed ^ 0x5eed0c20)), byName: map[string]*wk{}, viols: map[string]bool{}, flags: map[string]bool{}}
 	return s.run()
 }
